@@ -458,6 +458,8 @@ func (l *IPFSLog) Iterator(options *IteratorOptions, output chan<- iface.IPFSLog
 			start = append(start, e)
 		}
 	} else if options.LT != nil {
+		var below []iface.IPFSLogEntry
+
 		for _, c := range options.LT {
 			e, ok := l.Entries.Get(c.String())
 			if !ok {
@@ -465,15 +467,18 @@ func (l *IPFSLog) Iterator(options *IteratorOptions, output chan<- iface.IPFSLog
 				return errmsg.ErrFilterLTNotFound
 			}
 
-			start = nil
 			for _, n := range e.GetNext() {
 				e, ok := l.Entries.Get(n.String())
 				if !ok {
 					l.lock.RUnlock()
 					return errmsg.ErrFilterLTNotFound
 				}
-				start = append(start, e)
+				below = append(below, e)
 			}
+		}
+
+		if len(options.LT) > 0 {
+			start = below
 		}
 	}
 
